@@ -1,11 +1,11 @@
 (* Property C20 — shipped material data load and behave monotonically.
    Statements only.  The data are coq/gen/MaterialData.v, regenerated from
    /repo/srlife/data on every run by harness/translators/matdata.py; proofs in
-   proofs/MaterialProofs.v (rationals) and proofs/MaterialReal.v (reals,
-   Coq-Interval + Coquelicot). *)
-From Coq Require Import QArith Reals List Bool String.
-From SV Require Import theory.PolyMono model.Interp proofs.InterpProofs model.Life model.Materials
-     gen.MaterialData proofs.MaterialProofs proofs.MaterialReal.
+   proofs/MaterialProofs.v (rationals).  The monotonicity of the shipped rupture and
+   fatigue correlations (reals, Coq-Interval + Coquelicot) is in props/C20_real.v. *)
+From Coq Require Import QArith List Bool String.
+From SV Require Import model.Interp proofs.InterpProofs model.Life model.Materials
+     gen.MaterialData proofs.MaterialProofs.
 Import ListNotations.
 
 (* every tabulated conductivity, diffusivity, film coefficient, ceramic strength,
@@ -44,28 +44,6 @@ Theorem C20_envelope_points :
   (forall e, (0 < e)%Q -> inside xk yk 0 (1 + e) = false /\ inside xk yk xk (yk + e) = false /\ inside xk yk 1 e = false).
 Proof. exact envelope_points. Qed.
 Print Assumptions C20_envelope_points.
-
-(* rupture: log10 tR = P(log10 stress) / T - C.  For every shipped rupture
-   correlation, on 1 .. 1000 MPa: P decreases with stress and P / T with temperature *)
-Theorem C20_rupture_decreasing_in_stress :
-  Forall (fun p => let '(_, (c0, c1, c2, c3)) := p in
-          forall x y, (stress_lo <= x -> x < y -> y <= stress_hi -> q4 c0 c1 c2 c3 0 y < q4 c0 c1 c2 c3 0 x)%R) rupture_polys.
-Proof. exact rupture_decreasing_in_stress. Qed.
-Print Assumptions C20_rupture_decreasing_in_stress.
-
-Theorem C20_rupture_decreasing_in_temperature :
-  Forall (fun p => let '(_, (c0, c1, c2, c3)) := p in
-          forall x T1 T2, (stress_lo <= x <= stress_hi -> 0 < T1 -> T1 < T2 ->
-          q4 c0 c1 c2 c3 0 x / T2 < q4 c0 c1 c2 c3 0 x / T1)%R) rupture_polys.
-Proof. exact rupture_decreasing_in_temperature. Qed.
-Print Assumptions C20_rupture_decreasing_in_temperature.
-
-(* fatigue: log10 Nf = Q(log10 range) decreases from the cut-off to a range of 5e-2 *)
-Theorem C20_fatigue_decreasing_in_range :
-  Forall (fun p => let '(_, (c0, c1, c2, c3, c4), ylo) := p in
-          forall x y, (ylo <= x -> x < y -> y <= strain_hi -> q4 c0 c1 c2 c3 c4 y < q4 c0 c1 c2 c3 c4 x)%R) fatigue_polys.
-Proof. exact fatigue_decreasing_in_range. Qed.
-Print Assumptions C20_fatigue_decreasing_in_range.
 
 (* curve selection: the first curve whose temperature is not below the query,
    strain range clamped from below by THAT curve's cut-off *)
